@@ -87,7 +87,7 @@ pub fn c01_workloads(thorough: bool) -> Vec<(Workload, usize)> {
             (Workload { name: "W1-bound4".into(), ..w1 }, 4),
         ]
     } else {
-        vec![(w1, 2), (w2, 1), (w3, 1), (w4, 1), (w6, 1), (w5, 1), (w7, 1), (w8, 1), (w9, 1), (w10, 2), (w12, 1), (w13, 1), (w14, 2)]
+        vec![(w1, 2), (w2, 2), (w3, 2), (w4, 2), (w6, 2), (w5, 1), (w7, 2), (w8, 1), (w9, 1), (w10, 2), (w12, 1), (w13, 1), (w14, 2)]
     }
 }
 
@@ -260,6 +260,20 @@ pub fn c12_workloads(thorough: bool) -> Vec<(Workload, usize)> {
         // a large message (70 000 bytes) on ordered and unordered channels
         let cs = vec![chan(0, true, None, None, true), chan(1, false, None, None, true)];
         v.push((wl("L-70000B", cs, vec![m(A, 0, 0, 0, 70_000), m(A, 1, 0, 0, 70_000), m(A, 0, 0, 10, 5)]), 1));
+    } else {
+        // quick: double faults over a three-letter alphabet on one workload of each family
+        let pick = ["T-RO-neg-sizes", "T-RU-neg-sizes", "T-PO-neg-sizes", "I-RO-inband", "I-PU-inband", "M-3chan-2senders", "U-3senders-unordered-frag"];
+        let extra: Vec<(Workload, usize)> = v
+            .iter()
+            .filter(|(w, _)| pick.contains(&w.name.as_str()))
+            .map(|(w, _)| {
+                let mut w2 = w.clone();
+                w2.name = format!("{}-b2", w.name);
+                w2.faults = vec![Fault::Drop, Fault::DupNow, Fault::Delay(3)];
+                (w2, 2)
+            })
+            .collect();
+        v.extend(extra);
     }
     v
 }
